@@ -398,6 +398,27 @@ func (d *Discharger) prepare(ob *Obligation) {
 			depth    int // > 0: relevance depth; -1: only hypotheses whose spec functions all occur in the goal
 		}
 		modes := []vmode{{true, -1}, {false, -1}, {true, 3}, {true, 0}, {false, 4}, {false, 0}}
+		// goals that compare strings get one more variant first, in which every composite string term is replaced
+		// by a variable (the same term by the same variable): what holds of arbitrary strings holds of these
+		stringy := false
+		for _, c := range cases[i] {
+			if mentionsOp(c.goal, "str.<") || mentionsOp(c.goal, "str.<=") {
+				stringy = true
+			}
+		}
+		if stringy {
+			sub := &Obligation{Name: ob.Name}
+			for _, c := range cases[i] {
+				pc := lightOnly(withDerived(c.pc, c.cands, c.goal))
+				abs := map[*Term]*Term{}
+				pc2 := make([]*Term, len(pc))
+				for k, t := range pc {
+					pc2[k] = abstractStrings(t, abs)
+				}
+				sub.Cases = append(sub.Cases, obCase{pc: pc2, goal: abstractStrings(c.goal, abs), derived: true})
+			}
+			ob.variants[k] = append(ob.variants[k], obligationScript(sub, d.prelude).Render("", false))
+		}
 		if e := os.Getenv("GOVC_DEPTHS"); e != "" {
 			modes = nil
 			for _, x := range strings.Split(e, ",") {
@@ -992,4 +1013,47 @@ func (d *Discharger) dischargeAll(obs []*Obligation) {
 		}(ob)
 	}
 	wg.Wait()
+}
+
+func mentionsOp(t *Term, op string) bool {
+	if t.Op == op {
+		return true
+	}
+	for _, a := range t.Args {
+		if mentionsOp(a, op) {
+			return true
+		}
+	}
+	return false
+}
+
+// abstractStrings replaces the outermost composite String-sorted subterms of t (concatenations, conditionals,
+// applications - not literals, not variables) by fresh variables, one per distinct term.
+func abstractStrings(t *Term, abs map[*Term]*Term) *Term {
+	if t.Sort == SString && !t.open {
+		if t.Op == "str" || t.Op == "var" {
+			return t
+		}
+		if v, ok := abs[t]; ok {
+			return v
+		}
+		v := Fresh("strabs", SString)
+		abs[t] = v
+		return v
+	}
+	if len(t.Args) == 0 || t.Op == "forall" || t.Op == "exists" {
+		return t
+	}
+	args := make([]*Term, len(t.Args))
+	ch := false
+	for i, a := range t.Args {
+		args[i] = abstractStrings(a, abs)
+		if args[i] != a {
+			ch = true
+		}
+	}
+	if !ch {
+		return t
+	}
+	return rebuild(t, args)
 }
